@@ -8,6 +8,8 @@ CONSTANTS
   MaxMig = 3
   Serial = FALSE
   Requesters = {1}
+  MCPages <- PagesCtrl
+  SkipZero = FALSE
   AcceptGuard = "handling"
 INVARIANTS NoStalledWindow
 CHECK_DEADLOCK FALSE
